@@ -156,7 +156,8 @@ def main(argv=None) -> int:
     if not hasattr(mod, 'replay'):
       print(f'{pid} has no replay entry point', file=sys.stderr)
       return 2
-    return core.run_check(pid, lambda chk: mod.replay(chk, args.replay), args.tier, args.seed, level)
+    return core.run_check(pid, lambda chk: mod.replay(chk, args.replay), args.tier, args.seed, level,
+                          write_evidence=False)
   return core.run_check(pid, mod.run, args.tier, args.seed, level)
 
 
